@@ -4,6 +4,11 @@ import json, os, subprocess
 HERE = os.path.dirname(os.path.dirname(os.path.abspath(__file__)))
 
 CHECKS = {
+ 'C11': dict(
+    category='fault_enumeration', design_ref='4/C11, 3.1, 3.5',
+    technique='fault enumeration over (tree, failing leaf, failing worker index) and (tree, prior workload, enter/exit cycle) with bounded-progress watchdog (bound + stable stacks) and thread/child-process census against a baseline; second-order history (failed enter -> new server) under swept GC thresholds',
+    text='17 servlet trees (thread/process leaves, sequential, ensemble, switch, nested): every (leaf, worker) position fails to initialise -> __enter__ must raise that worker own InitBoom(tag, index), the census must return to the baseline, and a new server entered afterwards in the same process must work; every tree x {none, ok, failures, timeouts, abandoned stream with 50-400 pending 0.1-4 kB requests, 300 x 200 kB through process stages} x 3 enter/exit cycles of the same object: exit within the bound, census clean, backlog 0, re-entry answers correctly. Quick samples the process trees; thorough runs all.',
+    note='Trusted: hang rule = 60 s AND three identical stack samples; leak = child process / non-daemon thread / mpservice Thread alive 6 s after return; QueueFeederThread daemons reported only.'),
  'C02': dict(
     category='exploration', design_ref='4/C02, 3.2, 3.4, 3.5, 3.7',
     technique='history + executable model: every request is a unique tagged token, every outcome is matched against a reference interpreter of the servlet tree; ledger shadow inside the server critical section; adversarial-but-legal id() allocator; schedule fuzzer (incl. in child workers)',
